@@ -96,7 +96,9 @@ class SimProbe:
             probe.counters["checkjump_calls"] += 1
             xn = np.asarray(x_new, dtype=float)
             ok, why = inside(xn, probe.limits if probe.limits is not None else x_lims)
-            if probe.conserve_sum:
+            # only proposals that can become part of a path are judged (a proposal outside the limits is discarded; with astronomically
+            # large Poisson counts - see K-02 - its float components do not even sum exactly)
+            if probe.conserve_sum and ok:
                 probe.counters["proposals_sum_checked"] += 1
                 if float(np.sum(xn)) != float(np.sum(np.asarray(x, dtype=float))):
                     raise MonitorViolation("a proposed state of a closed model changes the total population",
